@@ -347,6 +347,15 @@ func init() {
 		Rule:  "mixed histories over all flows and module subsets (the C01 generator) with extra weight on near-valid submissions — a valid token followed by one stray character, a valid token in a URL with a broken percent-escape elsewhere — because those make a library log what it received. Secret ledger: every password the harness seeded or typed (incl. wrong ones), every OTP and recovery code shown or seeded, every remember cookie value plus its decoded token, nonce and std-base64 form, every mailed token in URL form, std-base64 form and decoded bytes (all >= 8 bytes). After every request: substring search of every changed/created stored field and new token row, and of every log line the request produced (shipped defaults.Logger); every stored password must be bcrypt-shaped; every mail carrying a token — including a string that was mailed before — must be addressed only to the addresses of every account that string was ever mailed for. distinct_nontrivial = distinct (action, class, log line shapes, fields changed) signatures.",
 		Units: func(t string) int { return tierN(t, 600, 25000) },
 		Run: func(c *RunCtx, unit int) {
+			if unit%100 == 0 {
+				// "mailed tokens leave the system only in the e-mail addressed to the account": two accounts
+				// never get the same token, however many requests mint tokens at once
+				if msg, n := tokenBurst(32, 3000); msg != "" {
+					c.Stats.Violations = append(c.Stats.Violations, sim.VioRec{Violation: *vio("C17", "one-time-token-generator-under-concurrency", "%s", msg), Index: unit})
+				} else {
+					c.Stats.Add("tokens-generated-in-parallel", n)
+				}
+			}
 			r := Rng(c.Seed, "C17", unit)
 			cfg := randomCfg(r, "auth")
 			cfg.FoldPIDs = unit%3 == 0 // the user table is looked up case-insensitively
